@@ -65,7 +65,9 @@ where
                 });
             }
 
-            if pushed_len == 0 && stored_len == real_stored_len {
+            // Nothing to do — unless the in-memory page index was truncated (reset()) and that
+            // truncation has not reached the disk yet.
+            if pushed_len == 0 && stored_len == real_stored_len && !pages.has_changes() {
                 return Ok(false);
             }
 
